@@ -34,7 +34,7 @@ func init() {
 		ID:          "C16",
 		Explanation: "RA guarded-by over linker/symbols.go: every load/store/index/delete of packageSymbols.{children,files,symbols,exts} and Symbols.extDecls is dominated by Lock/RLock of the mutex of the same value (must-hold lock-set dataflow over the CFG; writes need the write lock), or sits in a helper all of whose static call sites hold it (checked per call site, propagated through helpers), or is a constructor access on an unshared object. Every field of the two structs must be in the table or the reviewed exemptions. No blocking operation (channel op, semaphore Acquire, Wait, Sleep) may execute while a table mutex may be held.",
 		NotDecided:  "the 'same collisions as one compile' clause beyond the check-then-commit atomicity of each critical section (history-dependent; see also C17)",
-		Rules:       []func(*World){raSymbols, ra4Symbols},
+		Rules:       []func(*World){raSymbols, ra4Symbols, ra4dExtensionRegistration},
 	})
 	register(&Property{
 		ID:          "C33",
@@ -76,7 +76,7 @@ func init() {
 		ID:          "C04",
 		Explanation: "RO: scope is computed — every struct in package linker embedding a protoreflect interface whose embedded value is a noOp* placeholder or never assigned (reviewed real delegates are listed). For each, every exported method of the embedded interface (except the sealed ProtoInternal/ProtoType) must be declared on the type itself (method-set selection depth 1), so no attribute query is silently answered by the placeholder.",
 		NotDecided:  "that each override computes the right value (feature resolution, presence, packing, text names, range membership) — value-level",
-		Rules:       []func(*World){roDescriptors, rcfCaseFolding, rb3NoNegativeEarlyExit},
+		Rules:       []func(*World){roDescriptors, rcfCaseFolding, rb3NoNegativeEarlyExit, ro2ExplicitOptionPresence, rb4RangeConvention},
 	})
 	register(&Property{
 		ID:          "C09",
